@@ -414,6 +414,50 @@ def len_helpers(src):
             raise Skip("%s changed shape" % name)
     return (65535, 255)
 
+
+# ------------------------------------------------------------------ frame encoders (impl Encoder for ClientCodec / ServerCodec)
+def frame_prog(src, impl_re, size_fn, pdu_fn, subject):
+    impl = block_after(src, impl_re)
+    fn = block_after(impl, r"fn\s+encode\s*\(\s*&mut self\s*,\s*adu\s*:[^,]*,\s*buf\s*:\s*&mut BytesMut\s*\)\s*->\s*Result<\(\)>\s*\{")
+    fn = re.sub(r"^\s*let\s+\w+Adu\s*\{[^;]*\}\s*=\s*adu\s*;", "", fn, count=1, flags=re.S)      # the destructuring of the ADU
+    if not re.search(r"Ok\(\(\)\)\s*$", fn.rstrip()):
+        raise Skip("encode does not end with Ok(())")
+    stmts = split_stmts(re.sub(r"Ok\(\(\)\)\s*$", "", fn.rstrip()))
+    ops, sizevar, offvar, crcvar = [], None, None, None
+    for st in stmts:
+        mm = re.fullmatch(r"let (\w+) = buf\.len\(\);", st)
+        if mm:
+            offvar = mm.group(1); ops.append("FOffset"); continue
+        mm = re.fullmatch(r"let (\w+) = (super::)?%s\(&%s\)\?;" % (size_fn, subject), st)
+        if mm:
+            sizevar = mm.group(1); ops.append("FSize"); continue
+        mm = re.fullmatch(r"buf\.reserve\((\w+) \+ (\d+)\);", st)
+        if mm and mm.group(1) == sizevar:
+            ops.append("FReserve %s" % mm.group(2)); continue
+        if st == "buf.put_u8(hdr.slave_id);":
+            ops.append("FSlave"); continue
+        if st == "buf.put_u8(hdr.unit_id);":
+            ops.append("FUid"); continue
+        if st == "buf.put_u16(hdr.transaction_id);":
+            ops.append("FTid"); continue
+        if st == "buf.put_u16(PROTOCOL_ID);":
+            ops.append("FPid"); continue
+        mm = re.fullmatch(r"buf\.put_u16\(u16_len\((\w+) \+ (\d+)\)\);", st)
+        if mm and mm.group(1) == sizevar:
+            ops.append("FLenField %s" % mm.group(2)); continue
+        if re.fullmatch(r"(super::)?%s\(buf, &%s\);" % (pdu_fn, subject), st):
+            ops.append("FPdu"); continue
+        mm = re.fullmatch(r"let (\w+) = calc_crc\(&buf\[(\w+)\.\.\]\);", st)
+        if mm and mm.group(2) == offvar:
+            crcvar = mm.group(1); continue
+        mm = re.fullmatch(r"buf\.put_u16\((\w+)\);", st)
+        if mm and crcvar and mm.group(1) == crcvar:
+            ops.append("FCrc"); crcvar = None; continue
+        raise Skip("encode: unrecognised statement: %s" % st[:70])
+    if crcvar:
+        raise Skip("encode: CRC computed but not written")
+    return ops
+
 # ------------------------------------------------------------------ emit
 def s2l(name):
     return 's2l "%s"' % name
@@ -493,6 +537,15 @@ def main():
     emit_prog = lambda rows: "[" + "; ".join("(%s, [%s])" % (s2l(n), "; ".join(pr)) for n, pr in rows) + "]"
     piece("gen_req_enc_prog", "enc_table", "req_enc_prog_model", lambda: enc_prog(codec, "encode_request_pdu", "request"), emit_prog)
     piece("gen_rsp_enc_prog", "enc_table", "rsp_enc_prog_model", lambda: enc_prog(codec, "encode_response_pdu", "response"), emit_prog)
+    emit_ops = lambda ops: "[" + "; ".join(ops) + "]"
+    piece("gen_rtu_client_frame", "list fop", "rtu_frame_prog_model",
+          lambda: frame_prog(rtu, r"impl<'a>\s+Encoder<RequestAdu<'a>>\s+for\s+ClientCodec\s*\{", "request_pdu_size", "encode_request_pdu", "request"), emit_ops)
+    piece("gen_rtu_server_frame", "list fop", "rtu_frame_prog_model",
+          lambda: frame_prog(rtu, r"impl\s+Encoder<ResponseAdu>\s+for\s+ServerCodec\s*\{", "response_result_pdu_size", "encode_response_result_pdu", r"(pdu_res|pdu_result)"), emit_ops)
+    piece("gen_tcp_client_frame", "list fop", "tcp_frame_prog_model",
+          lambda: frame_prog(tcp, r"impl<'a>\s+Encoder<RequestAdu<'a>>\s+for\s+ClientCodec\s*\{", "request_pdu_size", "encode_request_pdu", "request"), emit_ops)
+    piece("gen_tcp_server_frame", "list fop", "tcp_frame_prog_model",
+          lambda: frame_prog(tcp, r"impl\s+Encoder<ResponseAdu>\s+for\s+ServerCodec\s*\{", "response_result_pdu_size", "encode_response_result_pdu", r"(pdu_res|pdu_result)"), emit_ops)
     piece("gen_LEN_MAX", "N * N", "(65535, 255)", lambda: len_helpers(codec), lambda t: "(%d, %d)" % t)
     os.makedirs(os.path.dirname(OUT), exist_ok=True)
     new = "\n".join(out) + "\n"
